@@ -1032,6 +1032,36 @@ def calibrate_eeam(run):
                       "(tests/test_dlpoly_writeTABEAM.py::testDensityFunctions)" % (energy, expect), dict(energy=energy, expect=expect))
 
 
+def funcfl_negative_pair(run):
+    """the funcfl format stores Z(r) = sqrt(r phi(r) / 27.2 / 0.529): a pair potential that is negative somewhere on the grid has
+    no representation, so no file may be produced for it (squaring any Z that is written cannot give phi back)"""
+    from atsim.potentials import Potential, EAMPotential
+    for name, phi in (("attractive tail", lambda r: 2.0 - r), ("negative everywhere", lambda r: -1.0 - 0.5 * r), ("well", lambda r: (r - 1.5) ** 2 - 0.25)):
+        eam = EAMPotential("Al", 13, 26.98, lambda rho: -rho ** 0.5, lambda r: 1.0 / (1.0 + r), 4.05, "fcc")
+        sink = Sink(False)
+        run.evaluations += 1
+        try:
+            P.writeFuncFL(5, 0.5, 9, 0.5, [eam], [Potential("Al", "Al", phi)], sink, "title")
+            raised = None
+        except Exception as e:
+            raised = e
+        text = sink.value()
+        if raised is None or text:
+            vals = ""
+            if text:
+                try:
+                    f = formats.parse_funcfl(text)
+                    k = next((i for i in range(1, f["nr"]) if phi(i * 0.5) < 0), None)
+                    if k is not None:
+                        z = float(f["Z"][k])
+                        vals = ": at r=%s the file's Z gives phi = %r, the pair potential is %r" % (k * 0.5, z * z * 27.2 * 0.529 / (k * 0.5), phi(k * 0.5))
+                except Exception as e:
+                    vals = " (unreadable: %s)" % e
+            run.violation(dict(engine="layout", target="funcfl", clause="negative-pair", route="func"),
+                          "funcfl via func: [negative-pair] a pair potential with %s (negative on the grid) %s%s" % (
+                              name, "was written as a funcfl file" if raised is None else "was refused but %d characters were written" % len(text), vals), dict(name=name))
+
+
 def main(prop, tier, seed):
     from lib.harness import Run
     run = Run(prop, tier, seed)
@@ -1053,6 +1083,8 @@ def main(prop, tier, seed):
             # where the element order and the declared / zero-filled functions of a potable model come from (spec/Builder.tla)
             from engines import builder
             builder.validate(run, prop == "C04", tier)
+        if prop == "C19" and not run.machinery_errors:
+            funcfl_negative_pair(run)
         if prop in ("C04", "C05") and not run.machinery_errors:
             calibrate_eeam(run)
         if tier == "thorough" and prop in ("C01", "C03", "C05"):
@@ -1222,6 +1254,36 @@ def main_c17(tier, seed):
 
 
 _main_layout = main
+
+
+def funcfl_negative_pair(run):
+    """the funcfl format stores Z(r) = sqrt(r phi(r) / 27.2 / 0.529): a pair potential that is negative somewhere on the grid has
+    no representation, so no file may be produced for it (squaring any Z that is written cannot give phi back)"""
+    from atsim.potentials import Potential, EAMPotential
+    for name, phi in (("attractive tail", lambda r: 2.0 - r), ("negative everywhere", lambda r: -1.0 - 0.5 * r), ("well", lambda r: (r - 1.5) ** 2 - 0.25)):
+        eam = EAMPotential("Al", 13, 26.98, lambda rho: -rho ** 0.5, lambda r: 1.0 / (1.0 + r), 4.05, "fcc")
+        sink = Sink(False)
+        run.evaluations += 1
+        try:
+            P.writeFuncFL(5, 0.5, 9, 0.5, [eam], [Potential("Al", "Al", phi)], sink, "title")
+            raised = None
+        except Exception as e:
+            raised = e
+        text = sink.value()
+        if raised is None or text:
+            vals = ""
+            if text:
+                try:
+                    f = formats.parse_funcfl(text)
+                    k = next((i for i in range(1, f["nr"]) if phi(i * 0.5) < 0), None)
+                    if k is not None:
+                        z = float(f["Z"][k])
+                        vals = ": at r=%s the file's Z gives phi = %r, the pair potential is %r" % (k * 0.5, z * z * 27.2 * 0.529 / (k * 0.5), phi(k * 0.5))
+                except Exception as e:
+                    vals = " (unreadable: %s)" % e
+            run.violation(dict(engine="layout", target="funcfl", clause="negative-pair", route="func"),
+                          "funcfl via func: [negative-pair] a pair potential with %s (negative on the grid) %s%s" % (
+                              name, "was written as a funcfl file" if raised is None else "was refused but %d characters were written" % len(text), vals), dict(name=name))
 
 
 def main(prop, tier, seed):     # noqa: F811
